@@ -80,4 +80,12 @@ theorem reachable_dir_fills (s s' : Iso.State) (ops : List Iso.Op) (hinv : Iso.I
   · exact hc.2
   · rw [hlens]; exact hc.1
 
+/-- the path-table reservation of a reachable state holds the table: `path_tbl_size` bytes fit into the extents kept for ONE
+table (`path_table_num_extents` blocks), for both hierarchies, after any history -/
+theorem reachable_pt_fits (s s' : Iso.State) (ops : List Iso.Op) (hinv : Iso.Inv s) (h : Iso.run s ops = some s') :
+    s'.pt0.size ≤ s'.pt0.extents * 2048 ∧ s'.pt1.size ≤ s'.pt1.extents * 2048 := by
+  obtain ⟨h0, h1⟩ := Iso.path_tables_exact s s' ops hinv h
+  unfold PathTable.Inv PathTable.cdiv at h0 h1
+  constructor <;> omega
+
 end Pycdlib.DirBytes
